@@ -6,6 +6,7 @@ import (
 	"bytes"
 	"reflect"
 	"strings"
+	"unicode/utf8"
 
 	"github.com/alecthomas/participle/v2/lexer"
 )
@@ -302,6 +303,81 @@ func vhC06BytesIn(in string) {
 	vAssert(pos.Filename == fn, "C06: error position does not carry the supplied filename")
 	vAssert(pos.Offset >= 0 && pos.Offset <= len(in), "C06: error offset outside the input")
 	line, col := vhBytePos(in, pos.Offset)
+	vAssert(pos.Line == line && pos.Column == col, "C06: error line/column inconsistent with its offset")
+	vAssert(err.Error() == vhSpecError(pos, perr.Message()), "C06: Error() is not [file:]line:col: message")
+	if _, lexFail := err.(*lexer.Error); lexFail {
+		vAssert(ast == nil, "C06: a lexing failure must come with a nil AST")
+		vReach("lex-error")
+	} else {
+		vAssert(ast != nil, "C06: a parse failure must come with a non-nil partial AST")
+		_, isPE := err.(Error)
+		vAssert(isPE, "C06: parse error does not implement participle.Error")
+		vReach("parse-error")
+	}
+}
+
+// vhRunePos: line and column of a byte offset, one column per character as
+// utf8 decodes the text (an invalid byte is one character).
+func vhRunePos(in string, off int) (line, col int) {
+	line, col = 1, 1
+	for i := 0; i < off; {
+		if in[i] == '\n' {
+			line++
+			col = 1
+			i++
+			continue
+		}
+		_, n := utf8.DecodeRuneInString(in[i:])
+		i += n
+		col++
+	}
+	return
+}
+
+// VH_C06_Unquote: a parser built with Unquote on a token type whose tokens can
+// be as short as one byte (nothing obliges a lexer to hand Unquote only
+// well-formed literals): a value or a located error, never a panic.
+func VH_C06_Unquote() {
+	toks := vhStream()
+	p, berr := Build[vgSeq](Lexer(&vhStreamDef{toks: toks}), Elide("Ws"), Unquote("A", "B"), UseLookahead(2))
+	vAssert(berr == nil, "catalogue grammar must build")
+	ast, err := p.ParseString("f", "")
+	if err == nil {
+		vAssert(ast != nil, "C06: nil AST with nil error")
+		vReach("ok")
+		return
+	}
+	perr, ok := err.(Error)
+	vAssert(ok, "C06: error does not implement participle.Error")
+	pos := perr.Position()
+	vAssert(pos.Filename == "f" && pos.Offset >= 0 && pos.Offset < len(toks), "C06: error position is not a location of the input")
+	vAssert(err.Error() == vhSpecError(pos, perr.Message()), "C06: Error() is not [file:]line:col: message")
+	vReach("error")
+}
+
+// VH_C06_DefaultLexer: the default (text/scanner) lexer on arbitrary bytes from
+// an alphabet of quotes, escapes, comments, NUL and invalid UTF-8: a value or a
+// well-formed, located error.
+func VH_C06_DefaultLexer() {
+	in := vhScanInput()
+	fn := "file.txt"
+	p, berr := Build[vgScanWords]()
+	vAssert(berr == nil, "catalogue grammar must build")
+	ast, err := p.ParseString(fn, in)
+	if err == nil {
+		vAssert(ast != nil, "C06: nil AST with nil error")
+		vReach("ok")
+		return
+	}
+	perr, ok := err.(interface {
+		Position() lexer.Position
+		Message() string
+	})
+	vAssert(ok, "C06: error without Position()/Message()")
+	pos := perr.Position()
+	vAssert(pos.Filename == fn, "C06: error position does not carry the supplied filename")
+	vAssert(pos.Offset >= 0 && pos.Offset <= len(in), "C06: error offset outside the input")
+	line, col := vhRunePos(in, pos.Offset)
 	vAssert(pos.Line == line && pos.Column == col, "C06: error line/column inconsistent with its offset")
 	vAssert(err.Error() == vhSpecError(pos, perr.Message()), "C06: Error() is not [file:]line:col: message")
 	if _, lexFail := err.(*lexer.Error); lexFail {
